@@ -83,7 +83,7 @@ func (it *Iterator) Refresh() {
 	if it.Valid() {
 		itm := it.snap.db.ptrToItem(it.GetNode().Item())
 		it.iter.Close()
-		it.iter = it.snap.db.store.NewIterator(it.snap.db.iterCmp, it.buf)
+		it.iter = it.snap.db.store.NewIterator(it.snap.db.insCmp, it.buf)
 		it.iter.Seek(unsafe.Pointer(itm))
 		// The key-only seek lands on the oldest physical version of the key;
 		// move on to the version this snapshot can see.
@@ -111,9 +111,15 @@ func (m *Nitro) NewIterator(snap *Snapshot) *Iterator {
 		return nil
 	}
 	buf := snap.db.store.MakeBuf()
+	// The store cursor orders by (key, version) like the store itself. Seeking
+	// with a fresh item (version 0) still lands on the oldest version of the
+	// first key >= the target, but when the cursor has to re-search after the
+	// node under it was unlinked concurrently it resumes exactly behind that
+	// node; with the key-only comparator it fell back to the oldest version of
+	// the key and returned an item a second time.
 	return &Iterator{
 		snap: snap,
-		iter: m.store.NewIterator(m.iterCmp, buf),
+		iter: m.store.NewIterator(m.insCmp, buf),
 		buf:  buf,
 	}
 }
